@@ -17,7 +17,13 @@ class Adapter:
     def run_case(self, case):
         L = case['lang']
         inv = case['inv']
-        ctx = materialise.LangCtx(L)
+        try:
+            ctx = materialise.LangCtx(L)
+        except Exception:
+            if case.get('name') == 'generated':
+                # a RANDOM language (LangGen) that the toolbox refuses to load is inconclusive, not a divergence: the specification types intersection / difference by the common super asset (as malc does), the toolbox by the left operand, so a type filter such as (fe - fa)[T] can be well-formed for one and not for the other (DESIGN.md section 7); library languages must load
+                return {'steps': 1, 'div': [], 'inconclusive': True, 'features': ['generated_language_refused']}
+            raise
         ns = ctx.ns
         divs = []
 
